@@ -1,50 +1,79 @@
-(* C15, layer 4: non-vacuity of canonical_legal_images_partial.  A boolean checker for the C01 invariant (sound: c01_invb_ok),
-   and a 5x5 game with two placements and a slide in which Canonical really rotates twice (rot180, then the diagonal flip). *)
+(* C15, layer 5: non-vacuity of canonical_legal_images and canonical_legal_images64: a 5x5 game with two placements and a slide in which
+   Canonical really rotates twice (rot180, then the diagonal flip), and its 8x8 analogue with the height condition checked. *)
 From Coq Require Import NArith ZArith Arith List Bool Lia ZifyN ZifyBool ZifyNat.
 Require Import Rules Sym SymRules1 SymRules2 SymRules3 SymRules4.
-Require Import Board Stack Move GameOver Tps Symmetry CanonFacts Refine Slide2 Slide3 Slide6 Slide8 MoveRefines SymCode1 Canon1 Canon2 Canon3.
+Require Import Board Stack Move GameOver Tps Symmetry CanonFacts Refine SymCode1 Canon1 Canon2 Canon3.
+Require Import Preserve1 Preserve5 Canon4.
 Require Import Generated.Consts.
 Import ListNotations.
 Close Scope Z_scope. Close Scope N_scope.
 
-Definition sq_okb (b : bstate) (i : N) : bool :=
-  let h := nthN (bhs b) i in
-  (h <=? 64)%N && Bool.eqb (h =? 0)%N (negb (has (bw b) i) && negb (has (bb b) i)) && negb (has (bw b) i && has (bb b) i) &&
-  (negb (h =? 0)%N || (negb (has (bs b) i) && negb (has (bc b) i))) && negb (has (bs b) i && has (bc b) i).
+Lemma ok_inj {A} (a b : A) : Ok a = Ok b -> a = b.
+Proof. now inversion 1. Qed.
 
-Lemma sq_okb_ok b i : sq_okb b i = true -> sq_ok b i.
+Definition heights64b (p : position) : bool :=
+  forallb (fun k => (nthN (Height p) (N.of_nat k) <=? 64)%N) (seq 0 (N.to_nat (size p * size p))).
+Lemma heights64b_ok p : heights64b p = true -> heights64 p.
 Proof.
-  unfold sq_okb. cbv zeta. intros H. repeat (apply andb_prop in H; destruct H as [H ?]).
-  destruct (N.eqb_spec (nthN (bhs b) i) 0) as [E|E];
-  destruct (has (bw b) i) eqn:Ew, (has (bb b) i) eqn:Eb, (has (bs b) i) eqn:Es, (has (bc b) i) eqn:Ec; cbn in *; try discriminate;
-  constructor; rewrite ?Ew, ?Eb, ?Es, ?Ec; cbn; try reflexivity; try lia; try tauto;
-  try (split; [intros ?; first [contradiction|lia|split; reflexivity] | intros [? ?]; first [discriminate|assumption]]);
-  try (intros ?; first [contradiction|lia|split; reflexivity]).
+  unfold heights64b. intros H j Hj. rewrite forallb_forall in H.
+  specialize (H (N.to_nat j) ltac:(apply in_seq; lia)). rewrite N2Nat.id in H. lia.
 Qed.
 
-Definition c01_invb (p : position) : bool :=
-  let n := nsq (size p) in
-  (3 <=? size p)%N && (size p <=? 8)%N &&
-  (length (Height p) =? n) && (length (Stacks p) =? n) &&
-  forallb (fun k => sq_okb (bview p) (N.of_nat k)) (seq 0 n) &&
-  (whiteStones p <? 256)%N && (whiteCaps p <? 256)%N && (blackStones p <? 256)%N && (blackCaps p <? 256)%N &&
-  forallb (fun k => (nthN (Height p) (N.of_nat k) + size p <=? 64)%N) (seq 0 n).
-
-Lemma c01_invb_ok p : c01_invb p = true -> c01_inv p.
+(* equality of the fields abs reads *)
+Fixpoint listN_eqb (a b : list N) : bool :=
+  match a, b with [], [] => true | x :: a', y :: b' => (x =? y)%N && listN_eqb a' b' | _, _ => false end.
+Lemma listN_eqb_eq a : forall b, listN_eqb a b = true -> a = b.
 Proof.
-  unfold c01_invb. cbv zeta. intros H. repeat (apply andb_prop in H; destruct H as [H ?]).
-  assert (Hidx : forall i, (i < size p * size p)%N -> In (N.to_nat i) (seq 0 (nsq (size p)))).
-  { intros i Hi. apply in_seq. unfold nsq. split; [lia|]. cbn [plus]. rewrite <- N2Nat.inj_mul. lia. }
-  split; [lia|]. split; [|split].
-  - constructor; cbn [bview bhs bst].
-    + now apply Nat.eqb_eq.
-    + now apply Nat.eqb_eq.
-    + intros i Hi. apply sq_okb_ok. rewrite forallb_forall in H5. specialize (H5 _ (Hidx i Hi)). now rewrite N2Nat.id in H5.
-  - unfold reserves_ok. lia.
-  - intros i Hi. rewrite forallb_forall in H0. specialize (H0 _ (Hidx i Hi)). rewrite N2Nat.id in H0. lia.
+  induction a as [|x a IH]; intros [|y b] H; cbn in H; try discriminate; [reflexivity|].
+  apply andb_prop in H. destruct H as [H1 H2]. apply N.eqb_eq in H1. subst. f_equal. now apply IH.
 Qed.
 
-(* ---------- the example ---------- *)
+Definition pos_eqb (p q : position) : bool :=
+  (size p =? size q)%N && listN_eqb (Height p) (Height q) && listN_eqb (Stacks p) (Stacks q) &&
+  (Move.Black p =? Move.Black q)%N && (Standing p =? Standing q)%N && (Caps p =? Caps q)%N &&
+  (whiteStones p =? whiteStones q)%N && (whiteCaps p =? whiteCaps q)%N && (blackStones p =? blackStones q)%N && (blackCaps p =? blackCaps q)%N &&
+  (move p =? move q)%Z && Bool.eqb (Move.black_wins_ties p) (Move.black_wins_ties q).
+
+Lemma pos_eqb_abs p q : pos_eqb p q = true -> abs p = abs q.
+Proof.
+  unfold pos_eqb. intros H. repeat (apply andb_prop in H; destruct H as [H ?]).
+  repeat match goal with
+         | H : (_ =? _)%N = true |- _ => apply N.eqb_eq in H
+         | H : (_ =? _)%Z = true |- _ => apply Z.eqb_eq in H
+         | H : listN_eqb _ _ = true |- _ => apply listN_eqb_eq in H
+         | H : Bool.eqb _ _ = true |- _ => apply Bool.eqb_prop in H
+         end.
+  destruct p, q. cbn in *.
+  subst. reflexivity.
+Qed.
+
+(* boolean checks of the trace hypotheses, evaluated once *)
+Definition nocoll_stateb (sz : N) (st : cst) : bool :=
+  let boards := fst (fst st) in
+  forallb (fun b => negb (hash_of (cp b) =? hash_of (cp (board0 sz boards)))%N || pos_eqb (cp b) (cp (board0 sz boards))) boards.
+Definition nocoll_traceb (sz : N) (ms : list rmove) : bool :=
+  forallb (fun k => match fold_left (cstep sz) (firstn k ms) (cinit sz) with Ok st => nocoll_stateb sz st | _ => true end) (seq 0 (length ms)).
+
+Lemma nocoll_traceb_ok sz ms : nocoll_traceb sz ms = true -> nocoll_trace sz ms.
+Proof.
+  unfold nocoll_traceb. intros H k st Hk Hf. rewrite forallb_forall in H.
+  specialize (H k ltac:(apply in_seq; lia)). rewrite Hf in H. unfold nocoll_stateb in H. rewrite forallb_forall in H.
+  intros b Hb Hh. specialize (H b Hb). apply N.eqb_eq in Hh. rewrite Hh in H. cbn [negb orb] in H.
+  unfold A_of. now apply pos_eqb_abs.
+Qed.
+
+Definition heights_traceb (sz : N) (ms : list rmove) : bool :=
+  forallb (fun k => match fold_left (cstep sz) (firstn k ms) (cinit sz) with
+                    | Ok st => forallb (fun b => heights64b (cp b)) (fst (fst st)) | _ => true end) (seq 1 (length ms)).
+
+Lemma heights_traceb_ok sz ms : heights_traceb sz ms = true -> sc_trace sz heights64 ms.
+Proof.
+  unfold heights_traceb. intros H k st Hk Hf. rewrite forallb_forall in H.
+  specialize (H k ltac:(apply in_seq; lia)). rewrite Hf in H. rewrite forallb_forall in H.
+  intros b Hb. apply heights64b_ok. now apply H.
+Qed.
+
+(* ---------- 5x5 ---------- *)
 Definition ex_ms : list rmove :=
   [ {| mX := 4; mY := 4; mT := 2; mS := 0 |};      (* a flat on e5 *)
     {| mX := 4; mY := 3; mT := 2; mS := 0 |};      (* a flat on e4 *)
@@ -55,34 +84,40 @@ Definition ex_cs : list rmove :=
     {| mX := 1; mY := 0; mT := 2; mS := 0 |};
     {| mX := 1; mY := 0; mT := 5; mS := 1 |} ].
 
-Lemma ok_inj {A} (a b : A) : Ok a = Ok b -> a = b.
-Proof. now inversion 1. Qed.
-
 Example ex_canonical : canonical gen_basis 5 ex_ms = Ok ex_cs.
 Proof. vm_compute. reflexivity. Qed.
 
 Example ex_input : Forall canon_input ex_ms.
 Proof. repeat constructor; cbn; try lia; intros; discriminate. Qed.
 
-Ltac good_board :=
-  split; [apply c01_invb_ok; vm_compute; reflexivity
-         |intros Hh; first [vm_compute; reflexivity | exfalso; vm_compute in Hh; discriminate]].
+Example ex_nocoll : nocoll_trace 5 ex_ms.
+Proof. apply nocoll_traceb_ok. vm_compute. reflexivity. Qed.
 
-Example ex_trace_ok : trace_ok 5 ex_ms.
-Proof.
-  intros k st Hk Hf. cbn [length ex_ms] in Hk.
-  assert (Hc : k = 0 \/ k = 1 \/ k = 2) by lia.
-  assert (Hgood : forall boards rots tfn, (forall b, In b boards -> c01_inv (cp b) /\
-              (hash_of (cp b) = hash_of (cp (board0 5 boards)) -> abs (cp b) = A_of 5 boards)) -> good_state 5 (boards, rots, tfn)).
-  { intros boards rots tfn H. split; intros b Hb; now apply H. }
-  destruct Hc as [->|[->| ->]]; vm_compute in Hf; apply ok_inj in Hf; subst st; apply Hgood;
-    intros b Hb; cbn [In] in Hb; repeat (destruct Hb as [<-|Hb]; [good_board|]); destruct Hb.
-Qed.
+Example ex_hypotheses_hold : Forall canon_input ex_ms /\ nocoll_trace 5 ex_ms /\ canonical gen_basis 5 ex_ms = Ok ex_cs.
+Proof. exact (conj ex_input (conj ex_nocoll ex_canonical)). Qed.
 
-(* the conclusion of the theorem on the example, and that its images are not all trivial *)
 Example ex_legal_images :
   length ex_cs = length ex_ms /\ (forall k, k <= length ex_ms -> images_at 5 ex_ms ex_cs k).
-Proof. exact (canonical_legal_images_partial 5 ltac:(lia) ex_ms ex_cs ex_input ex_trace_ok ex_canonical). Qed.
+Proof. exact (canonical_legal_images 5 ltac:(lia) ex_ms ex_cs ex_input ex_nocoll ex_canonical). Qed.
 
-Example ex_hypotheses_hold : Forall canon_input ex_ms /\ trace_ok 5 ex_ms /\ canonical gen_basis 5 ex_ms = Ok ex_cs.
-Proof. exact (conj ex_input (conj ex_trace_ok ex_canonical)). Qed.
+(* ---------- 8x8 ---------- *)
+Definition ex8_ms : list rmove :=
+  [ {| mX := 7; mY := 7; mT := 2; mS := 0 |};
+    {| mX := 7; mY := 6; mT := 2; mS := 0 |};
+    {| mX := 7; mY := 6; mT := 7; mS := 1 |} ].
+
+Example ex8_canonical : canonical gen_basis 8 ex8_ms = Ok ex_cs.
+Proof. vm_compute. reflexivity. Qed.
+
+Example ex8_input : Forall canon_input ex8_ms.
+Proof. repeat constructor; cbn; try lia; intros; discriminate. Qed.
+
+Example ex8_nocoll : nocoll_trace 8 ex8_ms.
+Proof. apply nocoll_traceb_ok. vm_compute. reflexivity. Qed.
+
+Example ex8_heights : sc_trace 8 heights64 ex8_ms.
+Proof. apply heights_traceb_ok. vm_compute. reflexivity. Qed.
+
+Example ex8_hypotheses_hold :
+  Forall canon_input ex8_ms /\ nocoll_trace 8 ex8_ms /\ sc_trace 8 heights64 ex8_ms /\ canonical gen_basis 8 ex8_ms = Ok ex_cs.
+Proof. exact (conj ex8_input (conj ex8_nocoll (conj ex8_heights ex8_canonical))). Qed.
